@@ -4,6 +4,8 @@ import math
 
 import numpy as np
 
+from pbv import gen
+
 from pbv.core import Borderline, Violation, require, require_close, subcheck
 
 SUBCHECKS = []
@@ -34,6 +36,8 @@ def si_sdr(d, ctx):
     mix = d.choice([0.01, 0.5, 3.0])
     est = ref * rng.uniform(0.2, 3, size=(*lead, 1)) + \
         mix * rng.normal(size=(*lead, T)) * np.std(ref, axis=-1, keepdims=True)
+    # the same values behind other memory layouts
+    ref, est = gen.vary(d, ref, 191), gen.vary(d, est, 192)
     got = ctx.lib(f, ref, est)
     ctx.describe(lead=lead, T=T, mix=mix)
     require(np.shape(got) == lead, 'si_sdr-shape', f'{np.shape(got)}')
@@ -63,7 +67,7 @@ def _signals(d, rng, K, D, T):
     lv = 10 ** rng.uniform(-3, 3, size=(K, D, 1)) if d.bool() else np.ones((K, D, 1))
     images = rng.normal(size=(K, D, T)) * lv * d.log10(-3, 3)
     noise = rng.normal(size=(D, T)) * 10 ** rng.uniform(-2, 1) * np.std(images)
-    return images, noise
+    return gen.vary(d, images, 193), gen.vary(d, noise, 194)
 
 
 def _check_dict(ctx, fn, args, kw, base, clause):
@@ -137,6 +141,7 @@ def output_sxr(d, ctx):
         ic[k, owner[k]] *= d.choice([3.0, 30.0])
     ic = ic * d.log10(-3, 3)
     nc = rng.normal(size=(Kt, T)) * np.std(ic) * 10 ** rng.uniform(-2, 0)
+    ic, nc = gen.vary(d, ic, 195), gen.vary(d, nc, 196)
     avg = d.bool()
     res = ctx.lib(f, ic, nc, average_sources=avg)
     ctx.describe(K_source=Ks, K_target=Kt, T=T, average_sources=avg)
